@@ -63,9 +63,12 @@ def run(ctx):
             ctx.violation("hal generator picked a digit width outside the documented magnitude domain", {"cases": domain["outside"][:10]}, False)
         ctx.assumptions[:] = [a for a in ctx.assumptions if not a.startswith("FFT64 rounding error")] + [
             "FFT64: rounding error < 1/2 inside the documented magnitude domain is tied by correspondence only (IEEE-754 code, not proved)",
-            "NTT120: the butterfly network (ntt_ref / intt_ref) is a ring isomorphism Z_q[X]/(X^n+1) -> Z_q^n with inverse — hypothesis "
-            "`Ntt120.NttIsRingIso` of the pipeline theorems, tied by correspondence only; everything around it (residues, CRT, lazy "
-            "accumulation, reductions) is proved",
+            "NTT120: the lane compositions of Model/Ntt120Hal.lean (transforms, prepare, bbc products, lazy add/sub/negate, idft + CRT; "
+            "cnv / vmp / dft_apply / arbitrary compositions) are proved equal to the exact-integer HAL specification; that the Rust HAL "
+            "functions of NTT120Ref and NTT120Avx store exactly these lanes (x2-block / column index maps, loop structure) is tied by the "
+            "raw-word correspondence (pvh hal … ; raw D), not proved",
+            "NTT120Avx: every lane kernel is proved equal to the reference lane on every operand that can occur (C10 lane models + the range "
+            "lemmas of C07); the BitVec models of the intrinsic sequences themselves and the SAT-backed lemmas they rest on belong to C10",
         ]
         return finish(level=level, rule=(rule + " || " + ntt120gen.RULE) if rule else ntt120gen.RULE, extra=extra)
 
@@ -92,3 +95,38 @@ def run(ctx):
     finally:
         halgen.pick_bits = pick
     return rc
+
+
+# ---------------------------------------------------------------------------------------------
+# FFT64 floating-point half (slice extension, appended): the same `run`, with the `fft64` correspondence
+# gate (vlib/fft64gen.py: exact binary64 model vs the reference f64 code, bit for bit; numerical twiddle check;
+# model-only worst-case search) executed before the evidence is written.
+_run_with_ntt120 = run
+
+
+def run(ctx):
+    from . import fft64gen
+    finish = ctx.finish
+
+    def finish_with_fft64(level="proof", rule="", extra=None):
+        binp = ctx.build_harness()
+        drv = ctx.driver()
+        if binp is not None and drv is not None:
+            broken = fft64gen.gate(ctx, binp, drv)
+            if broken and not ctx.violations:
+                ctx.violation("C07 FFT64 correspondence no longer checks", {"broken": broken[:20]}, False)
+        ctx.assumptions[:] = [a for a in ctx.assumptions if not a.startswith("FFT64")] + [
+            "FFT64: the theorems are about the exact binary64 model (Model/F64.lean, Model/Fft64.lean); that the hardware/compiler implement "
+            "IEEE-754 round-to-nearest-even for f64 + - * and the i64<->f64 conversions, and that rustc does not contract a*b+c, is tied bit for bit "
+            "(never proved)",
+            "FFT64: the twiddle tables are computed by libm sin/cos (not modelled); the hypothesis `Fft64.TableAccurate (2^-51)` of `fft64_pipeline_exact_numeric` is "
+            "checked numerically on every dumped table (exact fixed-point interval arithmetic), not proved",
+            "FFT64: the AVX2/FMA kernels of FFT64Avx are a different evaluation order (fused multiply-add) and are not covered by the model; they are "
+            "compared with FFT64Ref through the exact-integer `hal` tie only",
+        ]
+        ctx.trusted += ["IEEE-754 binary64 RNE semantics of f64 + - * / as-casts on the host (x86-64 SSE2; no FMA contraction in the reference code)",
+                        "libm sin/cos only through the dumped twiddle tables, which are checked numerically against the roots of unity on every run"]
+        return finish(level=level, rule=(rule + " || " + fft64gen.RULE) if rule else fft64gen.RULE, extra=extra)
+
+    ctx.finish = finish_with_fft64
+    return _run_with_ntt120(ctx)
